@@ -34,7 +34,6 @@ from insights.client.apps.ansible.playbook_verifier.contrib.ruamel_yaml.ruamel.y
 
 EXCL = "insights_signature_exclude"
 SIG = "insights_signature"
-FINDING_NONSTR = "nonstring-exclusion-list"
 
 # ------------------------------------------------------------------ plain values <-> everything else
 # plain value: dict (insertion ordered; keys str|int|bool|None) | list | str | int | bool | None
@@ -749,21 +748,13 @@ class Pool(object):
                 chk.count("oracle:equal-core-pairs")
 
 
-def is_nonstr_finding(play):
-    """input predicate of the known finding: exclusion list present in a vars mapping but not a string"""
-    return spec_requests(play)[0] == "nonstring"
-
-
 def oracle_errors(chk, play, answer, via):
     """the error clauses, on the outcome of exclude (via='excl') or verify_play / verify"""
     want = spec_core(play)
     cls = answer.split("\t")[0]
     case = {"op": via, "play": to_json(play)}
-    if via == "excl" and not isinstance(play.get("vars", {}), dict):
-        return      # verify_play refuses a non-mapping 'vars' before exclude_dynamic_elements is reached
     if want[0] == "must-verr" and cls != "verr":
-        chk.failure("%s: %s, but the outcome is %r instead of a verification error" % (via, want[1], cls), case,
-                    finding=FINDING_NONSTR if (is_nonstr_finding(play) and cls == "crash") else None)
+        chk.failure("%s: %s, but the outcome is %r instead of a verification error" % (via, want[1], cls), case)
     if via != "excl" and signature_missing(play) and cls != "verr":
         chk.failure("%s: the play has no signature, but the outcome is %r instead of a verification error" % (via, cls), case)
 
@@ -1035,12 +1026,16 @@ def run(chk):
     if cases:
         chk.sample({"verify": cases[0], "impl": impl[0]})
 
-    # ---------------- known finding: witness against the implementation
-    w = {"name": "w", "hosts": "all", "vars": {EXCL: None, SIG: "UExBQ0VIT0xERVI="}}
-    a, _ = impl_vplay(to_ruamel(w))
-    chk.witnesses.append({"finding": FINDING_NONSTR, "play": to_json(w), "outcome": a})
-    if a == "crash":
-        chk.finding_reproduced(FINDING_NONSTR)
+    # ---------------- regression witnesses of the repaired defect 5a7421c (non-string list, non-mapping vars)
+    for c in corpus:
+        if c.get("op") == "vplay":
+            w = from_json(c["play"])
+            a1 = impl_excl(to_ruamel(w))[0].split("\t")[0]
+            a2, _ = impl_vplay(to_ruamel(w))
+            chk.witnesses.append({"corpus": c["file"], "exclude": a1, "verify_play": a2})
+            if a1 != "verr" or a2 != "verr":
+                chk.failure("regression witness %s: exclude_dynamic_elements -> %s, verify_play -> %s instead of a verification error"
+                            % (c["file"], a1, a2), {"op": "verify_play", "play": c["play"]})
 
 
 # ------------------------------------------------------------------ replay
